@@ -262,6 +262,8 @@ struct Ctx<'a> {
     scratch: String,
     cli_budget: usize,
     cli_seen: usize,
+    /// number of CLI runs made so far (rotates the file-system layouts)
+    cli_total: usize,
     /// CLI runs made for the current schema group (capped so that the budget is spread over the whole run)
     cli_group: usize,
     /// `--replay`: the CLI leg is run whatever the sampling says
@@ -646,19 +648,37 @@ impl<'a> Ctx<'a> {
             }
             self.cli_group += 1;
             self.cli_budget -= 1;
-            let run = imports::run_project_cli(&self.cli, &self.scratch, p);
+            // file-system layouts in turn (plain, explicit globs, symbolic links to directories / a file, one directory
+            // under two paths, duplicate globs, `..` in globs)
+            let layout = p.cli_layout.unwrap_or(self.cli_total % imports::CLI_LAYOUTS.len());
+            self.cli_total += 1;
+            let (run, layout_name) = imports::run_project_cli(&self.cli, &self.scratch, p, layout);
+            let family = imports::layout_family(imports::CLI_LAYOUTS.iter().position(|n| *n == layout_name).unwrap_or(0));
+            self.rep.count(&format!("cli-leg:layout:{layout_name}"));
+            let mut cj = p.to_json(&self.prop, 0);
+            cj["cli_layout"] = json!(layout);
             self.rep.count("cli-leg:valid-project");
             self.rep.o_cases += 1;
             self.rep.evaluations += 1;
             if let Some(m) = &run.malformed {
-                self.fail("O", "cli:malformed-output", &format!("`check --output-format json` on a spec-valid project: {m}"), p.to_json(&self.prop, 0), size);
+                self.fail("O", "cli:malformed-output", &format!("`check --output-format json` on a spec-valid project (layout {layout_name}): {m}"), cj, size);
             } else if run.code != Some(0) || !run.errors.is_empty() {
-                let class = run.errors.first().map(|e| self.templates.get(&imports::message_template(&e.3)).cloned().unwrap_or_else(|| "unknown-message".into())).unwrap_or_else(|| "no-diagnostic".into());
+                let class = run
+                    .errors
+                    .first()
+                    .map(|e| {
+                        if e.3.starts_with("File '") && e.3.trim_end().ends_with("not found.") {
+                            "import-file-not-found".to_string()
+                        } else {
+                            self.templates.get(&imports::message_template(&e.3)).cloned().unwrap_or_else(|| "unknown-message".into())
+                        }
+                    })
+                    .unwrap_or_else(|| "no-diagnostic".into());
                 self.fail(
                     "O",
-                    &format!("cli:{class}"),
-                    &format!("`nitrogql-cli check` exits {:?} with {} diagnostics on a project whose every file is spec-valid: {:?}", run.code, run.errors.len(), run.errors.first()),
-                    p.to_json(&self.prop, 0),
+                    &format!("cli:{class}@{family}"),
+                    &format!("`nitrogql-cli check` exits {:?} with {} diagnostics on a project whose every file is spec-valid (file-system layout {layout_name}): {:?}", run.code, run.errors.len(), run.errors.first()),
+                    cj,
                     size,
                 );
             }
@@ -673,7 +693,11 @@ impl<'a> Ctx<'a> {
             }
             self.cli_group += 1;
             self.cli_budget -= 1;
-            let run = imports::run_project_cli(&self.cli, &self.scratch, p);
+            // (the `..`-glob layout is left to C04: it is a known finding that would hide the labelled fault)
+            let layout = p.cli_layout.unwrap_or(self.cli_total % (imports::CLI_LAYOUTS.len() - 1));
+            self.cli_total += 1;
+            let (run, layout_name) = imports::run_project_cli(&self.cli, &self.scratch, p, layout);
+            self.rep.count(&format!("cli-leg:layout:{layout_name}"));
             self.rep.count("cli-leg:faulty-project");
             self.rep.count(&format!("cli-leg:rule:{}", l.rule));
             self.rep.o_cases += 1;
@@ -682,22 +706,27 @@ impl<'a> Ctx<'a> {
             let class_of = |m: &str| -> String { local.get(&imports::message_template(m)).or_else(|| self.templates.get(&imports::message_template(m))).cloned().unwrap_or_else(|| "unknown-message".into()) };
             let got: BTreeSet<String> = run.errors.iter().map(|e| class_of(&e.3)).collect();
             let ri = violating_roots[0];
+            let cjf = |p: &imports::Project, prop: &str| {
+                let mut cj = p.to_json(prop, ri);
+                cj["cli_layout"] = json!(layout);
+                cj
+            };
             if let Some(m) = &run.malformed {
-                self.fail("O", "cli:malformed-output", &format!("`check --output-format json`: {m}"), p.to_json(&self.prop, ri), size);
+                self.fail("O", "cli:malformed-output", &format!("`check --output-format json` (layout {layout_name}): {m}"), cjf(p, &self.prop), size);
             } else if run.code == Some(0) {
                 self.fail(
                     "O",
                     &format!("cli:{}:exit-0", l.rule),
-                    &format!("`nitrogql-cli check` exits 0 ({} diagnostics) although the merged document of {} violates rule {} ({} at {})", run.errors.len(), p.files[ri].path, l.rule, l.mutation, l.class),
-                    p.to_json(&self.prop, ri),
+                    &format!("`nitrogql-cli check` exits 0 ({} diagnostics) although the merged document of {} violates rule {} ({} at {}; file-system layout {layout_name})", run.errors.len(), p.files[ri].path, l.rule, l.mutation, l.class),
+                    cjf(p, &self.prop),
                     size,
                 );
             } else if !got.iter().any(|k| kinds.contains(k)) {
                 self.fail(
                     "O",
                     &format!("cli:{}:no-diagnostic-of-the-rule", l.rule),
-                    &format!("`nitrogql-cli check` exits {:?} but reports no diagnostic of the kinds {:?} of rule {} ({} at {}; merged document of {}); message classes {:?}", run.code, kinds, l.rule, l.mutation, l.class, p.files[ri].path, got),
-                    p.to_json(&self.prop, ri),
+                    &format!("`nitrogql-cli check` exits {:?} but reports no diagnostic of the kinds {:?} of rule {} ({} at {}; merged document of {}; file-system layout {layout_name}); message classes {:?}; first message {:?}", run.code, kinds, l.rule, l.mutation, l.class, p.files[ri].path, got, run.errors.first().map(|e| &e.3)),
+                    cjf(p, &self.prop),
                     size,
                 );
             }
@@ -1041,7 +1070,7 @@ pub fn run(prop: &str) {
             }
         }
     }
-    let mut ctx = Ctx { prop: prop.to_string(), rep: &mut rep, drv: &mut drv, kinds, best: BTreeMap::new(), abstract_ts: None, templates: BTreeMap::new(), cli: args.extra.get("cli").cloned().unwrap_or_default(), scratch: args.scratch.clone(), cli_budget: 0, cli_seen: 0, cli_group: 0, replaying: args.replay.is_some() };
+    let mut ctx = Ctx { prop: prop.to_string(), rep: &mut rep, drv: &mut drv, kinds, best: BTreeMap::new(), abstract_ts: None, templates: BTreeMap::new(), cli: args.extra.get("cli").cloned().unwrap_or_default(), scratch: args.scratch.clone(), cli_budget: 0, cli_seen: 0, cli_total: 0, cli_group: 0, replaying: args.replay.is_some() };
     // the CLI leg of the import stream: a modest number of process spawns
     if !args.scratch.is_empty() && std::path::Path::new(&ctx.cli).is_file() {
         ctx.cli_budget = if prop == "C03" { args.budget(70, 1000) } else { args.budget(50, 500) };
